@@ -22,7 +22,7 @@ CHECKS = {
     "C10": _node("^TestC10"),
     "C11": _node("^TestC11"),
     # the long-lived scenario (half a minute of real time) is a part of its own: parts run concurrently
-    "C12": _node("^TestC12", parts=[{"pkg": "node", "run": "^TestC12(Close|InitFailure|Lives|CloseWithUnsentData)$"},
+    "C12": _node("^TestC12", parts=[{"pkg": "node", "run": "^TestC12(Close|InitFailure|Lives|CloseWithUnsentData|CloseWithManyChannels)$"},
                                     {"pkg": "node", "run": "^TestC12LongLived$"}]),
     "C13": _node("^TestC13"),
     "C14": _node("^TestC14"),
